@@ -248,6 +248,63 @@ pub fn all(prop: &str, cancelable: bool) -> Vec<Template> {
             p.add_event(0, f);
             p.add_event(0, f);
             p.finish(0, f);
+            // parked signals are replayed by the thread's next command: drain, then send once more
+            let at = p.p.ops.len();
+            p.p.drain_points.push(at);
+            let u = p.root_s(0, false);
+            p.finish(0, u);
+            p.done()
+        }));
+    }
+    if want(&["C09"]) {
+        // local limits: the first 10240 entries of a scope are recorded with the right parents,
+        // the rest is skipped; a 4097th nested scope is not registered and harms nothing
+        let mut o = placed();
+        o.fresh_threads = false;
+        v.push(tpl("scope-over-the-span-limit", o.clone(), 3, move || {
+            let mut p = B::new(1, c);
+            let r = p.root(0);
+            p.guard(0, r);
+            let outer = p.lenter(0);
+            let _ = outer;
+            for i in 0..10_300u32 {
+                p.lenter(0);
+                if i % 997 == 0 {
+                    p.ladd_event(0);
+                }
+                p.pop(0);
+            }
+            p.ladd_event(0);
+            p.ladd_props(0);
+            p.pop(0);
+            p.lenter(0);
+            p.pop(0);
+            p.pop(0);
+            p.finish(0, r);
+            p.done()
+        }));
+        v.push(tpl("more-than-4096-nested-scopes", o, 3, move || {
+            let mut p = B::new(1, c);
+            let r = p.root(0);
+            let mut spans = vec![];
+            for i in 0..4_100u32 {
+                let s = p.child(0, r);
+                spans.push(s);
+                p.guard(0, s);
+                if i % 700 == 0 || i >= 4_094 {
+                    p.lenter(0);
+                    p.ladd_event(0);
+                    p.pop(0);
+                    p.op(0, Op::CurLocal);
+                }
+            }
+            for _ in 0..4_100 {
+                p.pop(0);
+            }
+            for s in spans {
+                p.finish(0, s);
+            }
+            p.finish(0, r);
             p.done()
         }));
     }
